@@ -308,6 +308,9 @@ func (s *synth) value(t reflect.Type, name string, depth int) (reflect.Value, bo
 		}
 		if t.Elem().Kind() == reflect.Uint8 {
 			n := r.Len(300)
+			if r.Chance(3) {
+				n = 4000 + r.Intn(5200) // beyond a 4 KiB threshold (a costly operation is cut off by the yield budget)
+			}
 			if ln == "k" || ln == "iv" || ln == "key" || ln == "ck" || ln == "ik" {
 				n = 16
 			}
@@ -326,6 +329,9 @@ func (s *synth) value(t reflect.Type, name string, depth int) (reflect.Value, bo
 			return v, true
 		}
 		n := r.Intn(5)
+		if r.Chance(5) && depth <= 2 {
+			n = 8 + r.Intn(10) // more entries than the usual list limits (8 S-NSSAIs, 16 TAIs)
+		}
 		sv := reflect.MakeSlice(t, n, n)
 		for i := 0; i < n; i++ {
 			e, ok := s.value(t.Elem(), name, depth+1)
